@@ -53,6 +53,10 @@ CLAIMS = {
   text="Proof of the counting and matching obligations of PUBLISH: PubSub.Publish returns exactly the number of messages it wrote to subscriber connections (ghost delivery counter; both Ascend passes modelled as loops over the function literals, with invariants), writes a pmessage only for a pattern that matches the channel and a message only to entries of exactly this channel; publishInternalCommandHandler replies with the number of local deliveries; publishCommandHandler replies with local deliveries plus the sum of the counts reported by every other member (loop invariant over the member list).",
   note="The subscription tree is a ghost set: the ORDER in which btree.Ascend yields (which makes the first pass stop at the right place and visit every entry of the channel) is not modelled, so 'every matching subscriber receives it' is not decided, only 'nothing else is delivered and the count is right'; subscribe/unsubscribe bookkeeping, PUBSUB CHANNELS/NUMSUB/NUMPAT (distinct counting needs set cardinality, outside this encoding), ordering per publisher and concurrency are not decided; go-redis IntCmd.Result and redcon.Conn.WriteInt carry assumed contracts; fewer than 2^62 deliveries and 2^16 members are assumed.",
   ref="DESIGN.md §4 C14, §9"),
+ "C19": dict(
+  text="Proof of the member-local part of Destroy and of its non-interference: destroyLocalDMap removes the fragment of the named DMap from every primary partition and, with replicas configured, from every backup partition of this member (loop invariant over the partition ids, partition lookups checked against the table invariant), forgets the DMap, and changes no fragment of any other name in any partition; destroyFragmentOnPartition removes exactly that one name; getDMap is a plain lookup.",
+  note="The fragments of a partition (a sync.Map) are modelled as a ghost set of names; loadFragment and wipeOutFragment are trusted for their effect on that set (closing and destroying the engine is not decided); destroyOnCluster (errgroup fan-out to every member) is outside the verifier's reach (goroutines), so 'every member is asked' is not decided; that different DMap names map to different fragment names relies on fmt.Sprintf being injective (assumed); operations other than Destroy are covered for non-interference only in so far as every fragment access goes through dm.fragmentName (by construction of loadFragment/loadOrCreateFragment).",
+  ref="DESIGN.md §4 C19, §9"),
 }
 
 NA_DEFAULT = "contract-decidable core not yet under contract in this tree (engine and storage layers first); no other technique substituted"
